@@ -207,3 +207,62 @@ Theorem C03_nest_occupancy_validator_sound_partial : forall Lo r r1 r0 n k Li tm
             if NestOcc.occ_consistent (NestOcc.leader_bounds n k (NestOcc.reach_term Lo p tm)) r1 r0 p
             then Nest.term_den tm (NestPart.collapse r r0 p) else 0.
 Proof. exact NestOccProofs.occ_dyn_okb_sound. Qed.
+
+(* at a full point at most one upper coordinate contributes ... *)
+Theorem C03_nest_occupancy_dynamic_upper_unique : forall Lo r r1 r0 n k Li tm,
+  ~ In r Lo -> ~ In r1 Lo -> r1 <> r0 -> NestOcc.wf_outer Lo (NestOcc.occ_state_ok r r1 r0 n k Li) [tm] ->
+  forall p u, Nest.sum_at (Nest.upd p r1 u) (NestOcc.run_then_split Lo (NestOcc.occ_split r r1 r0 n k) Li [tm]) <> 0 ->
+  NestOcc.part_of (NestOcc.leader_bounds n k (NestOcc.reach_term Lo p tm)) (p r0) = Some u.
+Proof. exact NestOccProofs.occ_dyn_upper_unique. Qed.
+
+(* ... and the contributions whose key agrees with p outside r1 add up to the value of the term at the collapsed point
+   (to 0 when the lower coordinate lies below the leader's first element, where the term is 0 anyway) *)
+Theorem C03_nest_occupancy_dynamic_sum_over_upper : forall Lo r r1 r0 n k Li tm,
+  ~ In r Lo -> ~ In r1 Lo -> r1 <> r0 -> In r1 Li -> NoDup (Lo ++ Li) ->
+  (forall t, In t tm -> ~ In r1 (Nest.rem t)) ->
+  NestOcc.wf_outer Lo (NestOcc.occ_state_ok r r1 r0 n k Li) [tm] ->
+  forall p, NestOcc.sum_except r1 p (NestOcc.run_then_split Lo (NestOcc.occ_split r r1 r0 n k) Li [tm]) =
+            match NestOcc.part_of (NestOcc.leader_bounds n k (NestOcc.reach_term Lo p tm)) (p r0) with
+            | Some _ => Nest.term_den tm (NestPart.collapse r r0 p)
+            | None => 0
+            end.
+Proof. exact NestOccProofs.occ_dyn_sum_over_upper. Qed.
+
+(* two-level stacks, by composition.  K: [uniform_shape(s), uniform_occupancy(leader.n)]: r is shape-split into (r2, rx)
+   (NestPart.part_tstate, C02), then beneath the outer levels Lo (r2 among them) rx is occupancy-split into (r1, r0) *)
+Theorem C03_nest_occupancy_beneath_shape_partial : forall Lo r r2 rx s r1 r0 n k Li (tm : Nest.term),
+  (forall t, In t tm -> NoDup (Nest.rem t)) -> existsb (NestPart.holds r) tm = true ->
+  let tm1 : Nest.term := map (NestPart.part_tstate r r2 rx s) tm in
+  ~ In rx Lo -> NestOcc.wf_outer Lo (NestOcc.occ_state_ok rx r1 r0 n k Li) [tm1] ->
+  forall p, Nest.sum_at p (NestOcc.run_then_split Lo (NestOcc.occ_split rx r1 r0 n k) Li [tm1]) =
+            if andb (NestOcc.occ_consistent (NestOcc.leader_bounds n k (NestOcc.reach_term Lo p tm1)) r1 r0 p)
+                    (NestPart.consistent r2 rx s (NestPart.collapse rx r0 p))
+            then Nest.term_den tm (NestPart.collapse r rx (NestPart.collapse rx r0 p)) else 0.
+Proof. exact NestOccProofs.occ_beneath_shape_sound. Qed.
+
+(* K: [uniform_occupancy(l2.n2), uniform_occupancy(l1.n1)]: after Lo1, r is occupancy-split into (r2, rx); after the further
+   levels Lo2 (r2 among them), rx is occupancy-split into (r1, r0); then Li *)
+Theorem C03_nest_occupancy_beneath_occupancy_partial : forall Lo1 r r2 rx n2 k2 Lo2 r1 r0 n1 k1 Li tm,
+  ~ In r Lo1 -> ~ In rx Lo1 -> ~ In rx Lo2 ->
+  NestOcc.wf_outer Lo1 (NestOcc.occ2_state_ok r r2 rx n2 k2 Lo2 r1 r0 n1 k1 Li) [tm] ->
+  forall p,
+  let tmA := NestOcc.reach_term Lo1 p tm in
+  let tmB := NestOcc.occ_split r r2 rx n2 k2 tmA in
+  Nest.sum_at p (NestOcc.run_split_split Lo1 (NestOcc.occ_split r r2 rx n2 k2) Lo2 (NestOcc.occ_split rx r1 r0 n1 k1) Li [tm]) =
+  if andb (NestOcc.occ_consistent (NestOcc.leader_bounds n1 k1 (NestOcc.reach_term Lo2 p tmB)) r1 r0 p)
+          (NestOcc.occ_consistent (NestOcc.leader_bounds n2 k2 tmA) r2 rx (NestPart.collapse rx r0 p))
+  then Nest.term_den tm (NestPart.collapse r rx (NestPart.collapse rx r0 p)) else 0.
+Proof. exact NestOccProofs.occ_beneath_occ_sound. Qed.
+
+Theorem C03_nest_occupancy2_validator_sound_partial : forall Lo1 r r2 rx n2 k2 Lo2 r1 r0 n1 k1 Li tm,
+  NestOcc.occ2_dyn_okb Lo1 r r2 rx k2 Lo2 r1 r0 k1 Li (map Nest.rem tm) = true ->
+  (forall ld, nth_error tm k2 = Some ld -> NestOcc.tsortedb (Nest.cur ld) = true) ->
+  (forall ld, nth_error tm k1 = Some ld -> NestOcc.tsortedb (Nest.cur ld) = true) ->
+  forall p,
+  let tmA := NestOcc.reach_term Lo1 p tm in
+  let tmB := NestOcc.occ_split r r2 rx n2 k2 tmA in
+  Nest.sum_at p (NestOcc.run_split_split Lo1 (NestOcc.occ_split r r2 rx n2 k2) Lo2 (NestOcc.occ_split rx r1 r0 n1 k1) Li [tm]) =
+  if andb (NestOcc.occ_consistent (NestOcc.leader_bounds n1 k1 (NestOcc.reach_term Lo2 p tmB)) r1 r0 p)
+          (NestOcc.occ_consistent (NestOcc.leader_bounds n2 k2 tmA) r2 rx (NestPart.collapse rx r0 p))
+  then Nest.term_den tm (NestPart.collapse r rx (NestPart.collapse rx r0 p)) else 0.
+Proof. exact NestOccProofs.occ2_dyn_okb_sound. Qed.
